@@ -108,7 +108,7 @@ pub fn project_for(tape: &[u32], rp: &RenderProp) -> Option<(Project, Plan, u64)
     if plan.keys.iter().all(|k| k.has_formatter) && !rp.opts.formatters {
         return None;
     }
-    if rp.opts.formatters && !plan.keys.iter().any(|k| k.has_formatter) {
+    if rp.id == "C18" && !plan.keys.iter().any(|k| k.has_formatter) {
         return None;
     }
     Some((p, plan, style_seed))
@@ -220,7 +220,12 @@ fn emit_pkg(ws: &Path, pkg: &Pkg, rp: &RenderProp, only_keys: Option<&BTreeSet<u
         None => &pkg.plan,
     };
     let mut main = if rp.flavours {
-        emit_c02::main_rs(plan, pkg.project.locales.len())
+        if rp.opts.formatters {
+            let refs: Vec<String> = reference_descriptors(&pkg.project, plan).into_iter().collect();
+            emit_c02::main_rs(plan, pkg.project.locales.len(), Some(&refs))
+        } else {
+            emit_c02::main_rs(plan, pkg.project.locales.len(), None)
+        }
     } else if rp.opts.formatters {
         let refs: Vec<String> = reference_descriptors(&pkg.project, plan).into_iter().collect();
         emit::main_rs_with_refs(plan, pkg.project.locales.len(), &rp.opts, &refs)
@@ -236,7 +241,10 @@ fn emit_pkg(ws: &Path, pkg: &Pkg, rp: &RenderProp, only_keys: Option<&BTreeSet<u
         escapes: 1,
     };
     let features = if rp.dynamic_load { format!("{}, \"dynamic_load\"", emit::FEATURES_STD) } else { emit::FEATURES_STD.to_string() };
-    let deps = if rp.flavours {
+    let flavour_deps = format!("{}vref = {{ path = \"/verif/engine/vref\" }}\n", emit_c02::EXTRA_DEPS);
+    let deps = if rp.flavours && rp.opts.formatters {
+        flavour_deps.as_str()
+    } else if rp.flavours {
         emit_c02::EXTRA_DEPS
     } else if rp.opts.formatters {
         "vref = { path = \"/verif/engine/vref\" }\n"
@@ -246,6 +254,26 @@ fn emit_pkg(ws: &Path, pkg: &Pkg, rp: &RenderProp, only_keys: Option<&BTreeSet<u
         ""
     };
     emit::write_package(&ws.join(&pkg.name), &pkg.name, &pkg.project, &main, &style, &features, deps)
+}
+
+/// reference strings printed by the binary (formatter stages)
+fn reference_strings(pkg: &Pkg, out: &run::RunOutput, rp: &RenderProp) -> Result<BTreeMap<String, String>, Failure> {
+    let mut refs: BTreeMap<String, String> = BTreeMap::new();
+    if rp.opts.formatters {
+        for (id, text) in &out.obs {
+            if let Some(d) = id.strip_prefix("R|") {
+                match text.strip_prefix("OK:") {
+                    Some(t) => {
+                        refs.insert(d.to_string(), t.to_string());
+                    }
+                    None => {
+                        return Err(fail("harness-reference", json!({"package": pkg.name, "descriptor": d, "error": text})));
+                    }
+                }
+            }
+        }
+    }
+    Ok(refs)
 }
 
 /// every reference descriptor the expected strings of a plan mention
@@ -320,22 +348,7 @@ fn compare_pkg(pkg: &Pkg, out: &run::RunOutput, rp: &RenderProp, only_keys: Opti
             }
         }
     }
-    // reference strings printed by the binary (formatter stages)
-    let mut refs: BTreeMap<String, String> = BTreeMap::new();
-    if rp.opts.formatters {
-        for (id, text) in &out.obs {
-            if let Some(d) = id.strip_prefix("R|") {
-                match text.strip_prefix("OK:") {
-                    Some(t) => {
-                        refs.insert(d.to_string(), t.to_string());
-                    }
-                    None => {
-                        return Err(fail("harness-reference", json!({"package": pkg.name, "descriptor": d, "error": text})));
-                    }
-                }
-            }
-        }
-    }
+    let refs = reference_strings(pkg, out, rp)?;
     for k in &pkg.plan.keys {
         if k.has_formatter && !rp.opts.formatters {
             continue;
@@ -437,8 +450,9 @@ fn compare_pkg(pkg: &Pkg, out: &run::RunOutput, rp: &RenderProp, only_keys: Opti
 fn compare_flavours(pkg: &Pkg, out: &run::RunOutput, rp: &RenderProp, only_keys: Option<&BTreeSet<usize>>) -> Result<Vec<CaseInfo>, Failure> {
     let p = &pkg.project;
     let mut infos = vec![];
+    let refs = reference_strings(pkg, out, rp)?;
     for k in &pkg.plan.keys {
-        if k.has_formatter {
+        if k.has_formatter && !rp.opts.formatters {
             continue;
         }
         if let Some(set) = only_keys {
@@ -453,6 +467,14 @@ fn compare_flavours(pkg: &Pkg, out: &run::RunOutput, rp: &RenderProp, only_keys:
             for ci in emit_c02::count_indices(a) {
                 let exp_s = plan::expected(p, k, li, a, ci, false).map_err(|e| fail("harness-model", json!({"error": format!("{e:?}")})))?;
                 let exp_v = plan::expected(p, k, li, a, ci, true).map_err(|e| fail("harness-model", json!({"error": format!("{e:?}")})))?;
+                let (exp_s, exp_v) = if k.has_formatter {
+                    (
+                        plan::substitute_refs(&exp_s, &refs).map_err(|e| fail("harness-reference", json!({"error": e, "key": k.path})))?,
+                        plan::substitute_refs(&exp_v, &refs).map_err(|e| fail("harness-reference", json!({"error": e, "key": k.path})))?,
+                    )
+                } else {
+                    (exp_s, exp_v)
+                };
                 let mut seen: BTreeMap<String, String> = BTreeMap::new();
                 for (f, is_view) in &fl {
                     let id = format!("{}|{}|{}:{}", k.idx, li, ci, f);
@@ -1168,6 +1190,10 @@ pub fn c02() -> RenderProp {
                 max_pieces: 4,
                 max_comp_depth: 2,
                 plural_locales_only: true,
+                // a fifth of the variables carry a formatter (typed values; reference text from `vref`)
+                formatters: true,
+                p_formatter: 20,
+                fmt_no_zoned_time: true,
                 ..GenCfg::default()
             };
             if t.chance(1, 6) {
@@ -1188,6 +1214,7 @@ pub fn c02() -> RenderProp {
         opts: PlanOpts {
             assignments: 1,
             max_counts: 8,
+            formatters: true,
             ..PlanOpts::default()
         },
         packages: (24, 320),
@@ -1198,10 +1225,14 @@ pub fn c02() -> RenderProp {
             if k.per_locale.iter().any(|(_, r)| r.len() > 26) {
                 c.push("more-than-26-top-level-pieces".to_string());
             }
+            if k.has_formatter {
+                c.push("key-with-formatted-variable".to_string());
+            }
             c
         },
-        rule: "generated packages (interpolations, ranges, plurals, literals of every JSON type, keys under 1-3 levels of namespaces / \
-               subkeys); one context per package created natively (ssr, cookie and header getters returning None) and switched with \
+        rule: "generated packages (interpolations, ranges, plurals, literals of every JSON type, a fifth of the variables formatted \
+               (typed values; their expected text is fresh ICU4X output computed by the vref crate inside the binary), keys under 1-3 \
+               levels of namespaces / subkeys); one context per package created natively (ssr, cookie and header getters returning None) and switched with \
                set_locale; for every (locale, key, argument assignment, up to 3 counts) the observations t!/tu!/td! (to_html), \
                t_string!/tu_string!/td_string!, t_display!/tu_display!/td_display!, the const chain get_keys_const().a().b().inner() \
                for literal keys, and for every proper prefix of the key path scope_i18n! (direct and chained one segment at a time), \
